@@ -43,15 +43,16 @@ Theorem C08_error_origin : forall E docs cwd OP ctx_base live follow s parents r
 Proof. exact esr_failed_origin. Qed.
 Print Assumptions C08_error_origin.
 
-(* Known finding on the current tree (F22), as the model transcribes it: in continue mode an ill-typed target does NOT
-   leave the reference verbatim — the holder becomes the empty schema *)
-Theorem C08_refuted_illtyped_target : forall E docs cwd OP ctx_base live follow s parents rroot base m nref s1 sf,
+(* ... and likewise when the target is found but is a string, number, boolean or array (or does not decode): the reference
+   stays verbatim.  (On the pinned tree the holder became the empty schema - defect F22, repaired by the fix commit 2784181;
+   the statement below was then `... = Done (_, JObj [])` under the name C08_refuted_illtyped_target.) *)
+Theorem C08_continue_verbatim_illtyped : forall E docs cwd OP ctx_base live follow s parents rroot base m nref s1 sf,
   o_cont OP = true ->
   nuri (get_str "$ref" m) base = POk nref -> is_circular s nref parents = (s1, false) ->
   resolve E docs cwd live s1 rroot (get_str "$ref" m) base "Schema" = Failed sf -> dfail sf = true ->
-  expand_schema_ref E docs cwd OP ctx_base live follow s parents rroot base m = Done (set_dfail sf false, JObj []).
+  expand_schema_ref E docs cwd OP ctx_base live follow s parents rroot base m = Done (set_dfail sf false, JObj m).
 Proof. exact esr_continue_illtyped. Qed.
-Print Assumptions C08_refuted_illtyped_target.
+Print Assumptions C08_continue_verbatim_illtyped.
 
 (* ---------- no spurious error (Expand/ExpandComplete.v) ----------
    "... and returns no error when every $ref it has to follow is resolvable": on a graph in which every reference parses,
